@@ -2,7 +2,7 @@
 # tools/sweep_mutants.sh <root of mutant dirs> : for every <root>/<Cxx>/m<k>/patch.diff apply it to /repo, run the
 # property's own check and its neighbours (quick tier), restore /repo. Writes <dir>/caught.txt.
 ROOT="$1"
-declare -A REL=( [C01]="C01 C02 C06" [C02]="C02 C01 C10 C14" [C03]="C03 C07 C08" [C04]="C04 C06" [C05]="C05 C08" [C06]="C06 C01 C07 C08" [C07]="C07 C08 C06" [C08]="C08 C04 C05" [C10]="C10 C02" [C13]="C13 C15" [C14]="C14 C04 C02" [C15]="C15 C13" [C16]="C16" [C17]="C17" [C20]="C20" )
+declare -A REL=( [C01]="C01 C02 C06" [C02]="C02 C01 C10 C14" [C03]="C03 C07 C08" [C04]="C04 C06" [C05]="C05 C08 C06" [C06]="C06 C01 C07 C08" [C07]="C07 C08 C06" [C08]="C08 C04 C05" [C10]="C10 C02" [C13]="C13 C15" [C14]="C14 C04 C02 C10" [C15]="C15 C13 C02 C10" [C16]="C16 C14" [C17]="C17" [C20]="C20" )
 cd /repo || exit 2
 if [ -n "$(git status --porcelain --untracked-files=no)" ]; then echo "/repo has local changes; refusing"; exit 2; fi
 trap 'git -C /repo checkout -- . >/dev/null 2>&1' EXIT
